@@ -347,6 +347,9 @@ func (e *Engine) runPath(fn *ssa.Function, harness string, prefix []Decision, pf
 		r.sess.close()
 	}
 	r.res.Decisions = r.trace
+	if e.traceEvents {
+		r.res.Observations = append(r.res.Observations, r.sched.events...)
+	}
 	r.res.SymBranches = r.symBranches
 	r.res.Steps = r.steps
 	r.res.Transitions = r.sched.trans
